@@ -9,6 +9,7 @@ import (
 	"os"
 	"path/filepath"
 	"strings"
+	"sync"
 	"time"
 
 	"golang.org/x/sync/semaphore"
@@ -168,7 +169,6 @@ func runC05(r resIface, c *c05case, rng *prng.R, scratch string) {
 		src.DropAfter(int64(c.Stream / 2)) // the link dies after half of the stream; the rest must arrive over the resumed link
 	}
 	src.Feed(stream)
-	conf.Options = conf.Configuration{SourceAuthType: "auth", SourcePasswordRaw: c05srcPw, HttpProfile: 9320, Id: "verif", Metric: true, Psync: true, SourceRdbParallel: 1}
 	watchdog := 60*time.Second + time.Duration(c.N/200000)*time.Second
 	r.Case(fmt.Sprintf("%s|n%d|nl%d/%d|%s|%s|%s|drop%v", c.Path, sizeClass(c.N), c.NLBefore, c.NLBetween, c.Word, c.Frag, c.Reader, c.Drop))
 	r.Count("path:"+c.Path, 1)
@@ -438,18 +438,35 @@ func c05casesChild(raw json.RawMessage, scratch string) {
 	log.SetLevel(log.LEVEL_NONE)
 	r := wk.ChildRes("C05")
 	base := prng.New(a.Seed).Split(0xC05)
-	for i := a.Start; i < a.End; i++ {
-		rng := base.At(uint64(i))
-		c := genC05(rng, i, ex.Big)
-		wk.ChildCase(i, c)
-		t0 := time.Now()
-		runC05(r, c, rng, scratch)
-		if d := time.Since(t0); d > 3*time.Second {
-			r.Note(fmt.Sprintf("slow case %d: %v path=%s n=%d stream=%d frag=%s reader=%s drop=%v", i, d.Round(time.Millisecond), c.Path, c.N, c.Stream, c.Frag, c.Reader, c.Drop))
+	conf.Options = conf.Configuration{SourceAuthType: "auth", SourcePasswordRaw: c05srcPw, HttpProfile: 9320, Id: "verif", Metric: true, Psync: true, SourceRdbParallel: 1}
+	// hand-offs run two at a time (one per source link in the tool), except the 34 MiB ones
+	width := 2
+	if ex.Big {
+		width = 1
+	}
+	var pmu sync.Mutex
+	for g := a.Start; g < a.End; g += width {
+		var wg sync.WaitGroup
+		for i := g; i < g+width && i < a.End; i++ {
+			wg.Add(1)
+			go func(i int) {
+				defer wg.Done()
+				rng := base.At(uint64(i))
+				c := genC05(rng, i, ex.Big)
+				pmu.Lock()
+				wk.ChildCase(i, c)
+				pmu.Unlock()
+				t0 := time.Now()
+				runC05(r, c, rng, scratch)
+				if d := time.Since(t0); d > 3*time.Second {
+					r.Note(fmt.Sprintf("slow case %d: %v path=%s n=%d stream=%d frag=%s reader=%s drop=%v", i, d.Round(time.Millisecond), c.Path, c.N, c.Stream, c.Frag, c.Reader, c.Drop))
+				}
+				if i == a.Start {
+					r.Sample(c)
+				}
+			}(i)
 		}
-		if i == a.Start {
-			r.Sample(c)
-		}
+		wg.Wait()
 	}
 	wk.ChildDone(r)
 }
